@@ -39,14 +39,26 @@ CHECKS = {
             "Lean theorems (C02.varAnd_/varOr_ count, parents_unchanged, inputs_unchanged, fresh, not_input, distinct, touched_invalid, untouched_is_clone/"
             "reproduced_is_clone, valid_is_parent_copy, varAnd_next_le, isSome, decodeAnd_lengths, decodeOr_length) hold for every population (repeated individuals "
             "included), every decision tape and every mate/mutate pair meeting the generalised OpContract: an operator returns objects that are its arguments or "
-            "objects it allocated itself, mate returns two different objects, it writes only those, and may do anything to their genome and fitness (in-place, "
-            "copy-and-return, swap-return, fitness-assigning and staticLimit-wrapped operators are all instances). touched_invalid speaks about the object that ends "
-            "up in the offspring list. Core/Variation.lean is replayed against deap.algorithms.varAnd/varOr on recorded runs over list/array/numpy/GP-tree/ES/"
-            "permutation individuals x plain, multi-objective and Constrained fitness with IEEE replay of the probability comparisons, and the statement is evaluated "
-            "as an oracle on the real objects (snapshots, identity, shared mutable state, empty invalid fitness).",
-            TB + "library operators meet OpContract (checked on every recorded call); clone=deepcopy (C16); Lean Float < and + equal CPython's; GP nodes are immutable "
-            "symbols; 'shares no mutable state' is oid freshness in the model and the aliasing walk on the real objects; varOr needs >= 2 individuals when cxpb > 0.",
-            "Lean 4 proof over a hand-written heap model + trace-replay correspondence + oracle"),
+            "objects it allocated itself, mate returns two different objects, it writes only those, and may do anything to their genome and fitness. For the "
+            "library's own operators the contract is no longer assumed: C02.lifted_inplace_meets_contract proves it once for EVERY in-place genome operator lifted to "
+            "a heap transformer, C02.staticLimit_meets_contract for gp.staticLimit around any operator meeting it, C02.library_ops_meet_contract instantiates both for "
+            "every operator model of C09 (Core/CrossMut: cxOnePoint, cxTwoPoint(s), cxUniform, cxPartialyMatched, cxUniformPartialyMatched, cxOrdered, cxMessyOnePoint, "
+            "cxESTwoPoint(s), mutShuffleIndexes, mutFlipBit, mutUniformInt, mutInversion), C10 (Core/RealOps: cxBlend, cxSimulatedBinary(+Bounded), cxESBlend, mutGaussian, "
+            "mutPolynomialBounded, mutESLogNormal) and C11 (Core/GpTree: cxOnePoint, cxOnePointLeafBiased, mutUniform, mutNodeReplacement, mutEphemeral, mutInsert, mutShrink), "
+            "plain or decorated, under every coding of floats / trees as heap genomes and every operator tape; C02.varAnd_library_ops / varOr_library_ops state all five "
+            "clauses for these pairs with NO operator hypothesis (+ _total: the call returns; _inplace_offspring: with undecorated library operators the offspring are the "
+            "clones themselves). touched_invalid speaks about the object that ends up in the offspring list. Core/Variation.lean is replayed against "
+            "deap.algorithms.varAnd/varOr on recorded runs over list/array/numpy/GP-tree/ES/permutation individuals x plain, multi-objective and Constrained fitness "
+            "with IEEE replay of the probability comparisons, twice: with scripted operators (every wrapper: copy-and-return, every combination of returned-object "
+            "identity, swap, fitness-assigning, staticLimit) and END TO END through the composed model (Core/VariationOps.lean: the model operators compute the "
+            "offspring genomes from the replayed operator tape; all six representations, staticLimit on len / sum / height); the statement is evaluated as an oracle "
+            "on the real objects (snapshots, identity, shared mutable state, empty invalid fitness).",
+            TB + "that the operator MODELS compute what deap.tools / deap.gp compute is the correspondence of C09/C10/C11 and of the composed stream here (OpContract itself "
+            "holds for every lifted function, so it does not depend on it); user-registered operators outside the library are covered relative to OpContract (checked "
+            "on every recorded call); a = b (the same object passed twice to mate) is outside the lifting's faithful domain and never arises (two different clones are "
+            "passed); clone=deepcopy (C16); Lean Float < and + equal CPython's; GP nodes are immutable symbols; 'shares no mutable state' is oid freshness in the model "
+            "and the aliasing walk on the real objects; varOr needs >= 2 individuals when cxpb > 0.",
+            "Lean 4 proof over a hand-written heap model composed with the operator models + trace-replay and end-to-end tape-replay correspondence + oracle"),
     "C09": ("full",
             "Lean theorems C09.{onepoint,twopoint,uniform,messy}_multiset, *_locus, *_lengths, uniform(R)_exact, es_pairs(+_multiset,_locus,_lengths), "
             "pmx_perm, upmx_perm, ox_perm (aliased in-place model), shuffle_perm/shuffle_total/shuffle_raises, inversion_perm(+_exact), flip_exact/complement/length, "
@@ -146,24 +158,35 @@ CHECKS = {
             "every level (nested genome, strategy, meta, fitness) and compares class, shape and attributes of the members. IEEE products of the test inputs exact.",
             "Lean 4 proof over a hand-written model + differential correspondence + oracle"),
     "C11": ("full",
-            "Lean theorems (C11.complete_iff(+_count), typed_iff, searchSubtree_span/_total, height_eq/height_deepest, splice_welltyped/_complete, "
-            "gen_full/gen_grow/gen_half, cx_closed, cxlb_closed, mutUniform_closed, nodeRepl_closed, ephemeral_closed, insert_closed, shrink_closed, "
-            "staticLimit_sound/_closed, add_pools_ok) hold for every primitive set with the pool invariant, every tree and every tape; Core/GpTree.lean "
-            "transcribes the list-level code of deap.gp and is diffed against it by replaying the recorded random draws on 19 primitive sets (4 loosely typed; 9 strongly "
-            "typed incl. subclass pairs, object-rooted roots, a type with terminals only, a type with primitives only; 6 with the vocabulary registered in shuffled order; "
-            "psetOK_of_adds derives the pool invariant from the registrations) x all "
-            "min<=max in 0..6 x all operators (bare and under staticLimit); the statement is evaluated as an independent oracle.",
-            TB + "list slicing/slice assignment/issubclass; randint/randrange/choice contracts; theorems speak about every result the generators return "
-            "and gen_total/cx_total/cxlb_total/mut*_total prove that every well-typed tape of the stated length yields a result (no IndexError, termination); staticLimit totality not covered.",
+            "Lean theorems (C11.complete_iff(+_count), typed_iff, searchSubtree_span (any Python index -len<=i<len; _span_nat/_index/_total), height_eq/height_deepest, "
+            "splice_welltyped/_complete, gen_full/gen_grow/gen_half/gen_ramped, cx_closed, cxlb_closed, mutUniform_closed, nodeRepl_closed, ephemeral_closed, "
+            "insert_closed, shrink_closed, op_closed, staticLimit_sound/_closed/_total/_fault/_height_total, ops_closed_history, ops_limit_history, add_pools_ok) hold "
+            "for every primitive set with the pool invariant, every tree and every tape; the history theorems are inductions over arbitrary finite sequences of "
+            "(possibly static-limited) operators applied to the same tree objects. Core/GpTree.lean "
+            "transcribes the list-level code of deap.gp and is diffed against it by replaying the recorded random draws on 20 primitive sets (4 loosely typed; 10 strongly "
+            "typed incl. subclass pairs, object-rooted roots, a type with terminals only, a type with primitives only, two homonymous types; 6 with the vocabulary "
+            "registered in shuffled order; psetOK_of_adds derives the pool invariant from the registrations) x all "
+            "min<=max in 0..6 x all operators (bare and under staticLimit), searchSubtree at every int index, and operator histories (3-8 operators on the same objects with "
+            "read-only calls, clones and pickle round trips in between, checked after every step and replayed as a whole by runHistory); the statement is evaluated as an independent oracle.",
+            TB + "list slicing/slice assignment/issubclass; randint/randrange/choice contracts; deepcopy/pickle of a tree keep its node list (checked by the history replay); "
+            "theorems speak about every result the generators return "
+            "and gen_total/cx_total/cxlb_total/mut*_total/staticLimit_total prove that every well-typed tape of the stated length yields a result (no IndexError, termination); "
+            "totality of a whole history is not stated as one theorem (it follows step by step from the per-operator totality theorems and the closure invariant).",
             "Lean 4 proof over a hand-written model + tape-replay correspondence + oracle"),
     "C12": ("partial",
-            "Lean theorems (C12.str_eq_render, compileSrc_eq, tokens_render, fromString_eq_reparse, roundtrip, eval_roundtrip, adf_eval(+_two)) prove for all "
+            "Lean theorems (C12.str_eq_render, compileSrc_eq, tokens_render, fromString_eq_reparse, roundtrip, eval_roundtrip, adf_eval(+_two), compile_adf_independent) prove for all "
             "trees/arities that __str__'s stack machine prints the recursive text, that the tokenizer and the typed token loop of from_string parse it back to "
-            "a tree with the same arities that prints and evaluates identically, and that compileADF evaluates innermost-first; the compiled callable itself is "
-            "compared with evalTree (and with a direct Python interpreter as oracle) on 9 primitive sets (renamed/zero arguments, named terminals, mixed-type equal constants, "
-            "typed sets with a zero-arity primitive and long non-dyadic float constants whose text is rendered by the model from the transported value), a same-name twin "
-            "set and three-level ADF families incl. zero-argument ADFs, trees of height 0..6 from generators and variation operators; compile_adf_independent.",
-            TB + "CPython eval of the generated lambda source and repr/eval of numeric literals are trusted (reason for 'partial').",
+            "a tree with the same arities that prints and evaluates identically, and that compileADF evaluates innermost-first. NEW: the source text is no longer opaque — "
+            "Core/PyExpr.lean models the Python expression sub-language the generated source lives in (tokenizer, parser to an AST Name/Constant/Call/USub/Lambda, evaluator with "
+            "parameters shadowing globals), and C12.parse_compileSrc (the parser reads `lambda a,b: <str(tree)>` back as Lambda [a,b] (exprOfTree t), all arities and depths), "
+            "evalPy_compile, evalSrc_compile (parse + evaluate the text in the namespace = evalTree with the arguments bound) and pyCompileADF_eq (compileADF through the source texts, ADF "
+            "callables in the globals of the later lambdas = the tree-level compileADF) prove that the text means the tree, under the decidable hypotheses SrcOK/ArgsOK (names are "
+            "identifiers, constants print as literals) which the driver evaluates on every compiled tree. Correspondence: 15 primitive sets (renamed/zero arguments, named terminals, "
+            "mixed-type equal constants, typed int/bool/float, string sets with unnamed string constants, bool ephemerals in int slots), a same-name twin set, three-level ADF families incl. "
+            "zero-argument ADFs, parent/offspring pairs compiled consecutively, trees of height 0..6 from generators and variation operators; for every source DEAP hands to eval (captured at "
+            "gp.compile's own eval call): model AST = ast.parse of CPython, model value = compiled callable; plus generated and randomly edited texts of the sub-language.",
+            TB + "Still trusted (reason for 'partial'): that CPython's tokenizer/parser/evaluator of Name, Constant, Call, UnaryOp(USub) and Lambda nodes agrees with the Lean language model "
+            "(compared on every run, AST against ast.parse and values against the compiled callable, not proved); repr of constants; IEEE arithmetic of Lean's Float.",
             "Lean 4 proof over a hand-written model + differential correspondence + oracle"),
     "C13": ("partial",
             "Lean theorems over R for all dimensions/populations: update_eq_spec (code form of Strategy.update = published (mu/mu_w,lambda) "
@@ -200,11 +223,19 @@ CHECKS = {
             "image of the surviving records (rows_in_order, chapter_fields, chapters_aligned, record_deep_aligned at every chapter depth, del_exact_index/slice, "
             "del_out_of_range, pop_exact_deep/del_exact_deep), select columns, stream_positional (every position delivered at most once, all exactly once after a final "
             "stream; needs no distinctness), stream_at_most_once/stream_exactly_once (by value, for pairwise different records), header_once at full strength and "
-            "header_first (F5 repaired and modelled), compile_spec/multi_compile_spec; Core/Logbook.lean diffed after every op against deap.tools.Logbook (deep chapter "
-            "comparison); statement evaluated as oracle with plain list semantics, incl. shared dict objects, dict subclasses, records without scalars, repeated select "
+            "header_first (F5 repaired and modelled), compile_spec/multi_compile_spec; the TEXT: Core/LogbookText.lean transcribes __txt__ completely (column discovery, "
+            "columns_len as pickled state, recursive chapter blocks with offsets, header block, '{0:n}' / '{0}' cell formatting for ints, None, strings and every "
+            "double by exact rational arithmetic, center / expandtabs / left-justified tab template) and txt_shape, row_line_cells, str_all_rows, str_history, "
+            "chapter_text_aligned (every logbook aligned at every depth: no raise, header block ++ exactly one formatted line per record, chapter blocks as long as "
+            "the logbook), stream_text_once (exactly one data line per surviving record over everything the stream returned, at most one header block), "
+            "stream_text_deep, pickle_transparent lift the state theorems to the returned lines; Core/Logbook.lean + Core/LogbookText.lean diffed after every op "
+            "against deap.tools.Logbook (deep chapter comparison, every columns_len, the text of stream / str() / chapter streams VERBATIM, incl. logbooks that "
+            "are not aligned where __txt__ raises or prints shifted lines); pickle round trips (protocols 0-5) continued on the copy and on the original; statement evaluated as oracle with plain list semantics, incl. shared dict objects, dict subclasses, records without scalars, repeated select "
             "names, tuple-valued keys, several frozen positional arguments.",
-            TB + "text parser (rid >= 100000, header line = cell 'rid'); records with uniform chapter names at every level; column formatting not modelled; pickling "
-            "and a chapter's own exactly-once delivery are correspondence/oracle-only.",
+            TB + "text parser of the oracle (rid >= 100000, header line = cell 'rid'); records with uniform chapter names at every level; CPython str.format in the C locale, "
+            "str.center, str.expandtabs (transcribed, diffed one by one); strings without newline; that pickle restores the state (the model's pickle is the "
+            "identity) and a chapter's own exactly-once delivery are correspondence/oracle-only; after a raising stream the model sets header_streamed although the "
+            "code does not (outside the premise, never executed).",
             "Lean 4 proof over a hand-written model + differential correspondence + oracle"),
     "C03": ("full",
             "Lean theorems (C03.truthful, evals_exact, nevals_logged, log_shape(+_gu), hof_fed, hof_shown_evaluated(+_gu) (every individual shown to the hall of fame "
